@@ -30,6 +30,7 @@ type regF float64
 // a second family: built-in types and byte containers (their values take fmt's byte-string paths under %s %q %x %X)
 type regB []byte
 type regA [2]byte
+type regP uint8 // a byte-kinded element type: slices and arrays of it are "byte strings" to fmt's fast paths
 
 // regU: an unsafe string of a type that is never registered -- the sentinel printed AFTER a value of a registered type
 type regU string
@@ -40,6 +41,9 @@ var regTypes = map[string]reflect.Type{
 	"int": reflect.TypeOf(regI(0)), "string": reflect.TypeOf(regS("")), "struct": reflect.TypeOf(regT{}), "float": reflect.TypeOf(regF(0)),
 	"ptrstruct": reflect.TypeOf(&regT{}),
 	"bstring":   reflect.TypeOf(""), "bint": reflect.TypeOf(0), "bytes": reflect.TypeOf(regB{}), "barray": reflect.TypeOf(regA{}),
+	"u8elem": reflect.TypeOf(regP(0)),
+	// the redactable types themselves: registered or not, what a redactable holds inside its envelopes stays there
+	"rstr": reflect.TypeOf(redact.RedactableString("")), "rbytes": reflect.TypeOf(redact.RedactableBytes(nil)),
 }
 
 func regValue(t string) interface{} {
@@ -60,6 +64,12 @@ func regValue(t string) interface{} {
 		return regB("by")
 	case "barray":
 		return regA{7, 9}
+	case "u8elem":
+		return regP(201)
+	case "rstr":
+		return redact.RedactableString("pre ‹zq8› post")
+	case "rbytes":
+		return redact.RedactableBytes("pre ‹zq8› post")
 	}
 	return regF(2.5)
 }
@@ -71,9 +81,15 @@ func regProbes(t string) []string {
 		// below the top level a pointer prints as an address: only the positions that show the pointee
 		return []string{string(redact.Sprintf("%v", v)), string(redact.Sprint(reflect.ValueOf(v))), string(redact.Sprintf("%+v|%d", v, 3))}
 	}
+	// ... and as the element of a statically typed slice and array (for byte-kinded element types fmt has fast paths)
+	rv := reflect.ValueOf(v)
+	tsl := reflect.Append(reflect.MakeSlice(reflect.SliceOf(rv.Type()), 0, 1), rv)
+	tar := reflect.New(reflect.ArrayOf(1, rv.Type())).Elem()
+	tar.Index(0).Set(rv)
 	return []string{
 		string(redact.Sprintf("%v", v)), string(redact.Sprint([]interface{}{v, "u"})), string(redact.Sprintf("%+v", map[string]interface{}{"k": v})),
 		string(redact.Sprint(reflect.ValueOf(v))), string(redact.Sprintf("%v", struct{ X, y interface{} }{v, v})),
+		string(redact.Sprintf("%v", tsl.Interface())), string(redact.Sprintf("%d", tar.Interface())), string(redact.Sprint(struct{ S interface{} }{tsl.Interface()})),
 	}
 }
 
@@ -102,6 +118,22 @@ func regLeakProbes(t string) []string {
 				S regU
 			}{v.Interface(), regSentinel}, regSentinel)),
 			string(redact.Sprint(regSentinel)))
+		// behind unexported fields (reflection cannot turn these back into interface values), typed and untyped
+		out = append(out, string(redact.Sprintf(verb+"|%v", struct{ x, y interface{} }{v.Interface(), regSentinel}, regSentinel)))
+		switch x := v.Interface().(type) {
+		case redact.RedactableString:
+			out = append(out, string(redact.Sprintf(verb+"|%v", struct {
+				a redact.RedactableString
+				l []redact.RedactableString
+				s regU
+			}{x, []redact.RedactableString{x}, regSentinel}, regSentinel)))
+		case redact.RedactableBytes:
+			out = append(out, string(redact.Sprintf(verb+"|%v", struct {
+				a redact.RedactableBytes
+				m map[int]redact.RedactableBytes
+				s regU
+			}{x, map[int]redact.RedactableBytes{1: x}, regSentinel}, regSentinel)))
+		}
 	}
 	return out
 }
@@ -200,13 +232,16 @@ func registryReplay(args []string) {
 					// stays enveloped, in every spelling the verbs give it
 					for j, p := range probes {
 						vis := string(lib.DeleteEnvelopes([]byte(p)))
-						for _, sp := range []string{"zq9", "7a7139", "7A7139"} {
+						for _, sp := range []string{"zq9", "7a7139", "7A7139", "zq8"} {
 							if strings.Contains(vis, sp) {
 								rep.Violate("registry:unsafe-after-registered-visible", fmt.Sprintf("after registering %v: the unsafe value printed after a %s value is in the clear: %q (probe %d)", ln.Order[:i], strings.TrimSuffix(t, "#leak"), p, j), ln)
 							}
 						}
 					}
 					continue
+				}
+				if t == "rstr" || t == "rbytes" {
+					continue // (judged by the leak probes: a redactable is neither wholly in the clear nor wholly enveloped)
 				}
 				if _, inSet := ln.Safe[t]; !inSet {
 					// a type of the other family: never registered in this behaviour, but registering a built-in type of this
